@@ -299,6 +299,7 @@ package jsonrpc2
 //@   ensures @request-keeps-id result.1 == nil && typeIs(result.0, *Request) ==> calls(mkid) == 1 && result.0.(*Request).ID == callResult(mkid, 1, 0)
 //@   ensures @response-keeps-id result.1 == nil && typeIs(result.0, *Response) ==> calls(mkid) == 1 && result.0.(*Response).ID == callResult(mkid, 1, 0) && result.0.(*Response).ID.value != nil
 //@   ensures @only-requests-and-responses result.1 == nil ==> typeIs(result.0, *Request) || typeIs(result.0, *Response)
+//@   ensures @a-message-is-never-a-typed-nil (typeIs(result.0, *Request) ==> result.0.(*Request) != nil) && (typeIs(result.0, *Response) ==> result.0.(*Response) != nil)
 
 // marshal (both message kinds) writes only the wire struct it is given.
 //@ func (Message).marshal
